@@ -19,12 +19,15 @@ func TestC32Count(t *testing.T) {
 		if os.Getenv("C32_COUNT_DEEP") != "" {
 			mask = deepMask
 		}
+		if os.Getenv("C32_COUNT_TRIO") != "" {
+			mask = trioMask
+		}
 		enumerate(newModel(false), nil, k, mask, func(h []sym) {
 			n++
-			if hasTxn(h) >= 0 {
+			if firstOf(h, 1<<sT3) >= 0 || (mask == fullMask && firstOf(h, txnSyms) >= 0) {
 				withTxn++
 			}
 		})
-		fmt.Fprintf(os.Stdout, "depth %d: histories %d, with T %d\n", k, n, withTxn)
+		fmt.Fprintf(os.Stdout, "depth %d: histories %d, with T (T3 in the trio pass) %d\n", k, n, withTxn)
 	}
 }
